@@ -372,6 +372,27 @@ def run_comments(ctx):
                     if None not in ex:
                         guards[lit_of(ch['p'])] = ex
                         continue
+            # a guarded RUN of the closer's first character: `terminated(is_a("*"), peek(not(tag("/"))))`.  The run is taken greedily and the
+            # guard is tested after it, so in `**/` the run includes the star of the closer, the guard fails, the chunk fails, the body ends
+            # in front of the run and the closer does not match there: a properly closed comment is rejected
+            if ch.get('op') == 'terminated':
+                p_ = ch['p']
+                while p_.get('op') in ('recognize', 'map'):
+                    p_ = p_['p']
+                run_cls = None
+                if p_.get('op') == 'prim' and p_.get('name') in ('is_a', 'take_while1', 'take_while') and p_.get('args') and p_['args'][0].get('k') == 'lit' \
+                        and p_['args'][0].get('t') in ('str', 'char'):
+                    run_cls = set(str(p_['args'][0]['v']))
+                elif p_.get('op') in ('many1', 'many0') and lit_of(p_['p']) is not None and len(lit_of(p_['p'])) == 1:
+                    run_cls = {lit_of(p_['p'])}
+                hit = sorted(c_[0] for c_ in closers if c_ and len(c_) > 1 and run_cls and c_[0] in run_cls)
+                if hit:
+                    r.fail('%s:greedy-run-before-closer:%s' % (key, hit[0].encode('unicode_escape').decode()), W(f),
+                           '%s: the chunk `%s` takes a whole run of %r and tests its guard only after the run: when the run is directly followed by the rest of the closer (as in '
+                           '`%s%s`) the run includes the %r of the closer, the guard fails, the body ends in front of the run and the closer does not match there — a properly '
+                           'closed comment is rejected as unterminated' % (f.name, grammar.show(ch)[:60], hit[0], hit[0], [c_ for c_ in closers if c_ and c_[0] == hit[0]][0], hit[0]))
+                    unknown = True
+                    continue
             # a chunk that starts with the first character of a multi-character closer and then CONSUMES a further character (instead of
             # looking ahead) can eat the first character of the real closer: `**/`
             fl = flat(ch)
